@@ -23,10 +23,59 @@ class Node:
         return out
 
 
+NS_LEAVES = [
+    "int v_%(t)s_%(i)d;", "void g_%(t)s_%(i)d();", "typedef int t_%(t)s_%(i)d;",
+    "namespace a_%(t)s_%(i)d = std;", "using namespace u_%(t)s_%(i)d;", "using std::x_%(t)s_%(i)d;", "using A_%(t)s_%(i)d = int;",
+    "enum E_%(t)s_%(i)d { e_%(t)s_%(i)d_1, e_%(t)s_%(i)d_2 };", "class F_%(t)s_%(i)d;",
+    "void b_%(t)s_%(i)d() { if (1) { } }", "int i_%(t)s_%(i)d[] = { 1, 2 };",
+    "template <typename T> T tf_%(t)s_%(i)d(T x) { return x; }", "static_assert(sizeof(int) == 4, \"x\");",
+    "extern \"C\" int ec_%(t)s_%(i)d();", "inline int il_%(t)s_%(i)d() { return 0; }", ";",
+    "namespace a2_%(t)s_%(i)d = ::a::b;", "enum class EC_%(t)s_%(i)d : int;", "extern template class X_%(t)s_%(i)d<int>;",
+]
+CLASS_LEAVES = [
+    "int f_%(t)s_%(i)d;", "void m_%(t)s_%(i)d();", "public:", "private:", "typedef int ct_%(t)s_%(i)d;", "using CA_%(t)s_%(i)d = int;",
+    "enum CE_%(t)s_%(i)d { ce_%(t)s_%(i)d };", "%(t)s() : z(1) { }", "~%(t)s();", "void mb_%(t)s_%(i)d() const { { } }",
+    "friend class FR_%(t)s_%(i)d;", "static int sf_%(t)s_%(i)d;", "int bf_%(t)s_%(i)d : 3;", "operator int() const;",
+    "template <typename Q> void tm_%(t)s_%(i)d(Q q);", "static_assert(true, \"s\");", "protected:", "using B_%(t)s_%(i)d::bm;",
+]
+# None: the three / two classic leaves by position; an int: every leaf is that kind (leaf sweeps); "mix": by a stable hash
+LEAF_MODE = None
+
+
 def _leaf(in_class, tag, i):
-    if in_class:
-        return ["int f_%s_%d;" % (tag, i), "void m_%s_%d();" % (tag, i)][i % 2]
-    return ["int v_%s_%d;" % (tag, i), "void g_%s_%d();" % (tag, i), "typedef int t_%s_%d;" % (tag, i)][i % 3]
+    if LEAF_MODE is None:
+        if in_class:
+            return ["int f_%s_%d;" % (tag, i), "void m_%s_%d();" % (tag, i)][i % 2]
+        return ["int v_%s_%d;" % (tag, i), "void g_%s_%d();" % (tag, i), "typedef int t_%s_%d;" % (tag, i)][i % 3]
+    pool = CLASS_LEAVES if in_class else NS_LEAVES
+    if LEAF_MODE == "mix":
+        k = (sum(ord(c) for c in tag) * 31 + i * 7) % len(pool)
+    else:
+        k = LEAF_MODE % len(pool)
+    return pool[k] % {"t": tag, "i": i}
+
+
+def leaf_sweeps():
+    """for every leaf kind: forests in which every leaf is of that kind (each kind before, between, after and inside
+    nested blocks of every kind)"""
+    global LEAF_MODE
+    out = []
+    cnt = [500]
+
+    def mk(k, children=()):
+        cnt[0] += 1
+        name = {"ns": "N%d", "ext": "L%d", "struct": "S%d", "class": "C%d"}[k] % cnt[0]
+        return Node(k, name, list(children), pre=1, post=1)
+
+    try:
+        for mode in range(max(len(NS_LEAVES), len(CLASS_LEAVES))):
+            LEAF_MODE = mode
+            for roots in ([mk("ns", [mk("ns")])], [mk("ns", [mk("ext", [mk("struct")])])], [mk("ext", [mk("ns"), mk("class", [mk("struct")])])],
+                          [mk("struct", [mk("class")]), mk("ns")]):
+                out.append((program(roots), [n for r in roots for n in r.names()]))
+    finally:
+        LEAF_MODE = None
+    return out
 
 
 def render(node, in_class=False, indent=0):
